@@ -178,6 +178,10 @@ func BytesToBLS12381Point(bz []byte) (kyber.Point, error) {
 	if err := point.UnmarshalBinary(bz); err != nil {
 		return nil, err
 	}
+	// the neutral element is no public key: every message 'verifies' under it with the neutral element as signature
+	if point.Equal(newBLSSuite().G1().Point().Null()) {
+		return nil, errors.New("invalid public key")
+	}
 	return point, nil
 }
 
@@ -378,6 +382,10 @@ func (b *BLS12381MultiPublicKey) Address() AddressI {
 
 // VerifyBytes() verifies a digital signature given the original message payload and the signature out
 func (b *BLS12381MultiPublicKey) VerifyBytes(msg, sig []byte) bool {
+	// nobody signed: the aggregate of no keys is the neutral element, under which the neutral signature verifies for every message
+	if b.mask.CountEnabled() == 0 {
+		return false
+	}
 	publicKey, _ := b.scheme.AggregatePublicKeys(b.mask)
 	if b.scheme.Verify(publicKey, msg, sig) != nil {
 		return false
